@@ -178,8 +178,16 @@ void h_strip(void) {
 				}
 			}
 			ASSUME(src[last] == '\n' || (j == nl - 1 && last == L - 1));
+#ifdef YAML_FENCE
+			/* a YAML-fenced block: line 0 is the opening fence (LINE_YAML), line 1 the first key line, the LAST line may be the closing fence
+			 * (typed LINE_SETEXT_2 by the line classifier).  Fence lines carry no record and no value text: effective kind 0. */
+			bool fence = (j == 0) || (j == nl - 1 && j >= 2 && ltype[j] % 8 >= 4);
+			unsigned short ty = fence ? 0 : ((j == 1 || ltype[j] % 4 == 0) ? LINE_META : (ltype[j] % 4 == 1 ? LINE_INDENTED_TAB : (ltype[j] % 4 == 2 ? LINE_INDENTED_SPACE : LINE_PLAIN)));
+			unsigned short tok_ty = fence ? (j == 0 ? LINE_YAML : LINE_SETEXT_2) : ty;
+#else
 			unsigned short ty = (j == 0 || ltype[j] % 4 == 0) ? LINE_META : (ltype[j] % 4 == 1 ? LINE_INDENTED_TAB : (ltype[j] % 4 == 2 ? LINE_INDENTED_SPACE : LINE_PLAIN));
 			unsigned short tok_ty = ty;
+#endif
 #ifdef DEFAULT_ARM
 			/* ty is the EFFECTIVE kind the property reasons with; tok_ty the kind the line classifier assigned */
 			g_other_meta[j] = false;
@@ -243,7 +251,7 @@ void h_strip(void) {
 				/* region end: start of the next LINE_META line, or end of the block */
 				size_t rend = lstart[nl - 1] + llen[nl - 1];
 				for (size_t q = NL; q-- > 0;) {
-					if (q > j && q < nl && g_ltype[q] == LINE_META) {
+					if (q > j && q < nl && (g_ltype[q] == LINE_META || g_ltype[q] == 0)) {      /* 0: a fence line (YAML_FENCE) carries no value text */
 						rend = lstart[q];
 					}
 				}
